@@ -16,10 +16,12 @@
    leave-one-out regression error, and 4 (X A^T)^T W_sym X is its derivative, for all real-valued targets.
    NOT proved: the same for LMNN's sub-gradient (piecewise; checked per instance by central differences away from kinks);
    that SciPy's L-BFGS-B never returns a worse point than x0 (checked per fit). *)
-From Coq Require Import List ZArith Reals.
+From Coq Require Import List ZArith Reals Lia.
 From Coquelicot Require Import Coquelicot.
 From ML Require Import Ops Vec VecR MatR Objectives NCAGrad C10Proof C10Grad.
 From ML Require Import PinsC10.
+From ML Require Import NPNum C10Src.
+From MLgen Require Import Src_nca.
 Import ListNotations.
 Open Scope R_scope.
 
@@ -78,3 +80,27 @@ Print Assumptions C10_mlkr_gradient.
 (* text-level tie: the functions this property's hand-written model and harness were written from are unchanged
    (digests regenerated from /repo on every run; Proofs/PinsC10.v) *)
 Definition C10_source_pins := pins_C10_ok.
+
+(* NCA, source level: NCA._loss_grad_lbfgs as TRANSLATED on this run (gen/Src_nca.v: embedding, pairwise squared distances,
+   softmax with the diagonal excluded, mask, row sums, weights, symmetrisation with the diagonal filled by minus the column
+   sums, 2 (X L^T)^T S X), called with the mask NCA.fit builds (mask_ij = (y_i == y_j)), returns the documented objective and a
+   matrix whose Frobenius product with every direction E is the derivative of the documented objective along E. *)
+Definition C10_nca_source_stmt : Prop :=
+  forall (k d : nat) (L E X : Rm) (y : list Z),
+    wfmR k d L -> wfmR k d E -> List.Forall (wfvR d) X -> (2 <= length X)%nat -> length y = length X ->
+    let r := @nca_src ROps exp L X (label_mask y) in
+    fst r = @nca_obj ROps exp L X y /\
+    snd r = @nca_grad ROps exp k d L X y /\
+    is_derive (fun t => @nca_obj ROps exp (line L E t) X y) 0 (frobR (snd r) E).
+
+Theorem C10_nca_source : C10_nca_source_stmt.
+Proof.
+  intros k d L E X y HL HE HX Hn Hy r.
+  destruct (C10_nca_gradient k d L E X y HL HE HX Hn Hy) as [V G].
+  assert (EG: snd r = @nca_grad ROps exp k d L X y) by (apply (nca_src_grad exp k d L X y HL HX); [lia | exact Hy]).
+  split; [|split].
+  - unfold r. rewrite (nca_src_loss exp d L X y HX Hy). exact V.
+  - exact EG.
+  - rewrite EG. exact G.
+Qed.
+Print Assumptions C10_nca_source.
